@@ -1,0 +1,68 @@
+//go:build verif
+
+package conn
+
+// Add-only wrappers for the out-of-tree verification harness (/verif, property C20).
+// They expose the unexported single steps of an MConnection's sender so that a driver can
+// execute them one at a time, in an order chosen by the TLA+ model (specs/conn/MConn.tla),
+// on a connection whose sendRoutine is NOT running.  Nothing here is compiled without the
+// build tag `verif`.
+
+import (
+	"io"
+	"time"
+
+	"github.com/kardiachain/go-kardia/lib/timer"
+)
+
+// VerifEnqueue is TrySend without the IsRunning gate and without waking the sendRoutine:
+// Channel.trySendBytes on the channel with the given id (false: unknown channel or queue full).
+func (c *MConnection) VerifEnqueue(chID byte, msgBytes []byte) bool {
+	channel, ok := c.channelsIdx[chID]
+	if !ok {
+		return false
+	}
+	return channel.trySendBytes(msgBytes)
+}
+
+// VerifSendPacketMsg runs one sendPacketMsg (choose a channel, write one PacketMsg to the
+// buffered writer) and flushes.  It returns sendPacketMsg's result: true if nothing was pending.
+func (c *MConnection) VerifSendPacketMsg() bool {
+	if c.flushTimer == nil {
+		c.flushTimer = timer.NewThrottleTimer("flush", time.Hour)
+	}
+	exhausted := c.sendPacketMsg()
+	c.flush()
+	return exhausted
+}
+
+// VerifUpdateStats is the chStatsTimer branch of sendRoutine.
+func (c *MConnection) VerifUpdateStats() {
+	for _, channel := range c.channels {
+		channel.updateStats()
+	}
+}
+
+// VerifRecentlySent returns Channel.recentlySent of the channel with the given id (-1: unknown).
+func (c *MConnection) VerifRecentlySent(chID byte) int64 {
+	channel, ok := c.channelsIdx[chID]
+	if !ok {
+		return -1
+	}
+	return channel.recentlySent
+}
+
+// VerifFork returns a SecretConnection that uses the session keys of sc (the result of a real
+// handshake) on another underlying connection, with both nonces at zero -- the state right after
+// MakeSecretConnection.  The replay driver forks one real pair many times instead of paying for
+// a handshake per replayed behaviour; Write and Read are the unmodified methods.
+func (sc *SecretConnection) VerifFork(conn io.ReadWriteCloser) *SecretConnection {
+	return &SecretConnection{
+		recvAead:  sc.recvAead,
+		sendAead:  sc.sendAead,
+		remPubKey: sc.remPubKey,
+		conn:      conn,
+		recvNonce: new([aeadNonceSize]byte),
+		sendNonce: new([aeadNonceSize]byte),
+	}
+}
